@@ -1218,6 +1218,15 @@ impl TypeCheckVisitor<'_> {
     ) -> Type {
         let recv_ty = self.infer_expr(recv, type_bindings, expected_return_ty);
         let Some(recv_ty_name) = recv_ty.type_name() else {
+            if let Type::Tuple(_) = recv_ty {
+                self.diagnostics.push(Diagnostic {
+                    notes: vec![],
+                    fixes: vec![],
+                    severity: Severity::Error,
+                    message: format_mismatch_text("a struct", &recv_ty),
+                    position: recv.position.clone(),
+                });
+            }
             return Type::error("No type name found for this receiver");
         };
 
